@@ -18,6 +18,10 @@ use std::path::{Path, PathBuf};
 use std::process::{Command, Stdio};
 use std::time::Instant;
 
+/// id of the buildpack that the scenario's own crate is
+pub const OWN_BUILDPACK_ID: &str = "verif/own";
+pub const OWN_BUILDPACK_TOML: &str = "api = \"0.10\"\n\n[buildpack]\nid = \"verif/own\"\nversion = \"0.0.1\"\n";
+
 pub fn dir_digest(dir: &Path) -> String {
     fn walk(base: &Path, dir: &Path, out: &mut Vec<(String, Vec<u8>)>) {
         let Ok(rd) = std::fs::read_dir(dir) else { return };
@@ -238,6 +242,10 @@ pub struct LogEntry {
     pub exit: i32,
     pub injected: bool,
     pub digest: Option<String>,
+    /// for `pack build`: per --buildpack value that is a directory, (value, its buildpack.toml
+    /// bytes as text, bin/build present)
+    #[serde(default)]
+    pub bp_dirs: Vec<(String, String, bool)>,
 }
 
 pub struct RunResult {
@@ -279,6 +287,12 @@ fn list_state(dir: &Path) -> BTreeSet<String> {
 
 pub fn run_once(s: &Scenario, scratch: &Path) -> Result<RunResult, String> {
     let io = |e: std::io::Error| e.to_string();
+    // the crate's Cargo target directory is kept warm across runs of this worker
+    let warm = scratch.with_extension("target-cache");
+    let uses_own = chain_of(s).iter().any(|n| n.cfg.own_buildpack.is_some());
+    if uses_own && scratch.join("crate/target").is_dir() && !warm.exists() {
+        let _ = std::fs::rename(scratch.join("crate/target"), &warm);
+    }
     let _ = std::fs::remove_dir_all(scratch);
     let stub = scratch.join("stub");
     let tmp = scratch.join("tmp");
@@ -293,7 +307,15 @@ pub fn run_once(s: &Scenario, scratch: &Path) -> Result<RunResult, String> {
     if s.fixture_uncopyable {
         std::os::unix::fs::symlink("does/not/exist", fixture.join("broken-link")).map_err(io)?;
     }
-    std::fs::write(krate.join("Cargo.toml"), "[package]\nname = \"fixture-crate\"\nversion = \"0.0.0\"\n").map_err(io)?;
+    std::fs::write(krate.join("Cargo.toml"), "[package]\nname = \"fixture-crate\"\nversion = \"0.0.0\"\nedition = \"2021\"\n\n[workspace]\n").map_err(io)?;
+    if uses_own {
+        std::fs::create_dir_all(krate.join("src")).map_err(io)?;
+        std::fs::write(krate.join("src/main.rs"), if s.crate_broken { "fn main( {\n" } else { "fn main() {\n    println!(\"own buildpack\");\n}\n" }).map_err(io)?;
+        std::fs::write(krate.join("buildpack.toml"), OWN_BUILDPACK_TOML).map_err(io)?;
+        if warm.is_dir() {
+            let _ = std::fs::rename(&warm, krate.join("target"));
+        }
+    }
     for name in ["docker", "pack"] {
         std::os::unix::fs::symlink(bin_dir().join("stubcli"), path_dir.join(name)).map_err(io)?;
     }
@@ -332,10 +354,39 @@ pub fn run_once(s: &Scenario, scratch: &Path) -> Result<RunResult, String> {
     let fixture_digest_before = dir_digest(&fixture);
     let scen_path = scratch.join("scenario.json");
     std::fs::write(&scen_path, serde_json::to_string(s).map_err(|e| e.to_string())?).map_err(io)?;
-    let out = Command::new(bin_dir().join("simtest"))
-        .arg(&scen_path)
-        .env_clear()
-        .env("PATH", format!("{}:/usr/bin:/bin", path_dir.display()))
+    let mut cmd = Command::new(bin_dir().join("simtest"));
+    cmd.arg(&scen_path).env_clear();
+    let mut path = format!("{}:/usr/bin:/bin", path_dir.display());
+    if uses_own {
+        // packaging the crate's own buildpack runs cargo
+        for k in ["HOME", "CARGO_HOME", "RUSTUP_HOME", "RUSTUP_TOOLCHAIN"] {
+            if let Some(v) = std::env::var_os(k) {
+                cmd.env(k, v);
+            }
+        }
+        cmd.env("CARGO_NET_OFFLINE", "true");
+        // cargo sets CARGO for the tests it runs; libcnb-test relies on it
+        if let Some(cargo) = std::env::var_os("PATH").and_then(|paths| std::env::split_paths(&paths).map(|p| p.join("cargo")).find(|p| p.is_file())) {
+            cmd.env("CARGO", &cargo);
+            // Stand-in for a toolchain that has the default (musl) target installed: `cargo build
+            // --target x86_64-unknown-linux-musl` is served by the installed gnu target and its
+            // output mirrored to where the musl build would have put it.
+            let wrapper = format!(
+                "#!/bin/sh\nREAL='{}'\nif [ \"$1\" = build ]; then\n  \"$REAL\" $(echo \"$@\" | sed 's/x86_64-unknown-linux-musl/x86_64-unknown-linux-gnu/') || exit $?\n  for prof in debug release; do\n    if [ -d target/x86_64-unknown-linux-gnu/$prof ]; then\n      mkdir -p target/x86_64-unknown-linux-musl/$prof && cp -f target/x86_64-unknown-linux-gnu/$prof/fixture-crate target/x86_64-unknown-linux-musl/$prof/ || exit 1\n    fi\n  done\n  exit 0\nfi\nexec \"$REAL\" \"$@\"\n",
+                cargo.display()
+            );
+            std::fs::write(path_dir.join("cargo"), wrapper).map_err(io)?;
+            // ... and the C toolchain libcnb's cross-compile assistance looks for
+            let _ = std::os::unix::fs::symlink("/usr/bin/gcc", path_dir.join("musl-gcc"));
+            use std::os::unix::fs::PermissionsExt;
+            std::fs::set_permissions(path_dir.join("cargo"), std::fs::Permissions::from_mode(0o755)).map_err(io)?;
+        }
+        if let Some(p) = std::env::var_os("PATH") {
+            path = format!("{}:{}", path_dir.display(), p.to_string_lossy());
+        }
+    }
+    let out = cmd
+        .env("PATH", path)
         .env("TMPDIR", &tmp)
         .env("CARGO_MANIFEST_DIR", &krate)
         .env("VERIF_STUB_DIR", &stub)
@@ -510,8 +561,32 @@ pub fn judge_c17(s: &Scenario, r: &RunResult) -> Vec<String> {
         if p.builder != vec![c.builder.clone()] {
             v.push(format!("pack build #{bi}: builder {:?}, configured {:?}", p.builder, c.builder));
         }
-        if p.buildpacks != c.buildpacks {
-            v.push(format!("pack build #{bi}: buildpacks {:?}, configured (in order) {:?}", p.buildpacks, c.buildpacks));
+        match c.own_buildpack {
+            None => {
+                if p.buildpacks != c.buildpacks {
+                    v.push(format!("pack build #{bi}: buildpacks {:?}, configured (in order) {:?}", p.buildpacks, c.buildpacks));
+                }
+            }
+            Some((at, _)) => {
+                // the crate's own buildpack: a packaged directory under TMPDIR at that position
+                let at = at.min(c.buildpacks.len());
+                let mut rest = p.buildpacks.clone();
+                let own = if at < rest.len() { Some(rest.remove(at)) } else { None };
+                if rest != c.buildpacks {
+                    v.push(format!("pack build #{bi}: buildpacks {:?}, configured (in order, own buildpack at {at}) {:?}", p.buildpacks, c.buildpacks));
+                }
+                match own {
+                    Some(dir) if Path::new(&dir).starts_with(&r.tmp) => match e.bp_dirs.iter().find(|(d, _, _)| *d == dir) {
+                        Some((_, toml, has_build)) => {
+                            if toml != OWN_BUILDPACK_TOML || !has_build {
+                                v.push(format!("pack build #{bi}: the packaged own buildpack at {dir:?} is incomplete (descriptor identical: {}, bin/build: {has_build})", toml == OWN_BUILDPACK_TOML));
+                            }
+                        }
+                        None => v.push(format!("pack build #{bi}: the own buildpack reference {dir:?} is not a directory when pack runs")),
+                    },
+                    other => v.push(format!("pack build #{bi}: own buildpack reference {other:?} is not a packaged directory under TMPDIR")),
+                }
+            }
         }
         let mut want_env: BTreeMap<String, String> = c.env.iter().cloned().collect();
         if c.pack_fails {
@@ -823,6 +898,11 @@ fn simplify(s: &Scenario) -> Vec<Scenario> {
         if c != *n {
             v.push(c);
         }
+        let mut c = n.clone();
+        c.cfg.own_buildpack = None;
+        if c != *n {
+            v.push(c);
+        }
         v
     }
     for root in variants(&s.root) {
@@ -928,6 +1008,21 @@ pub fn worker(args: &[String]) -> i32 {
             sum.cells.insert(cell);
             if r.exit == Some(101) {
                 *sum.probes.entry("scenario_ended_by_panic".into()).or_insert(0) += 1;
+            }
+            if std::env::var_os("VERIF_E4_DEBUG").is_some() && fault == Fault::None && r.exit == Some(101) {
+                eprintln!("DEBUG scenario {i} own={:?} broken={} uncopyable={} exit={:?} stderr={}", chain_of(&s).iter().map(|n| n.cfg.own_buildpack).collect::<Vec<_>>(), s.crate_broken, s.fixture_uncopyable, r.exit, r.stderr_tail);
+            }
+            if r.log.iter().any(|e| !e.bp_dirs.is_empty()) {
+                *sum.probes.entry("own_buildpack_packaged_and_handed_to_pack".into()).or_insert(0) += 1;
+            }
+            if s.crate_broken && chain_of(&s).iter().any(|n| n.cfg.own_buildpack.is_some()) && r.exit == Some(101) {
+                *sum.probes.entry("own_buildpack_packaging_failed".into()).or_insert(0) += 1;
+            }
+            if s.fixture_uncopyable && r.exit == Some(101) && !r.log.iter().any(|e| e.prog == "pack") {
+                *sum.probes.entry("fixture_copy_failed_before_pack".into()).or_insert(0) += 1;
+            }
+            if s.rmi_mode != 0 && r.log.iter().any(|e| e.prog == "docker" && e.argv.first().map(String::as_str) == Some("rmi") && e.exit != 0) {
+                *sum.probes.entry("docker_rmi_failed".into()).or_insert(0) += 1;
             }
             if r.log.iter().any(|e| e.injected) {
                 *sum.probes.entry("injected_command_failure_fired".into()).or_insert(0) += 1;
